@@ -80,6 +80,21 @@ func customCase(c *Ctx, ki int, spec, env string, argv []string) {
 	sharedBuf.Reset()
 	o := runDirect(&sharedBuf, func() error { return app.Run(append([]string{"app"}, argv...)) })
 	runLog := [2][]string{optV.base().log, argV.base().log}
+	if o.Returned && !o.Panicked {
+		// the same command line once more on the same instance: the same calls again (Clear once, then the Sets)
+		optV.base().log, argV.base().log = nil, nil
+		ran1 := ran
+		ran = 0
+		sharedBuf.Reset()
+		o2 := runDirect(&sharedBuf, func() error { return app.Run(append([]string{"app"}, argv...)) })
+		second := [2][]string{optV.base().log, argV.base().log}
+		c.Count("second_runs_on_same_instance", 1)
+		if env == "" && (fmt.Sprint(second) != fmt.Sprint(runLog) || ran != ran1 || (o2.Err == nil) != (o.Err == nil)) && (o.Err == nil || len(runLog[0])+len(runLog[1]) == 0) {
+			c.Violation("C19", fmt.Sprintf("type{%s} spec=%q env=%q argv=%q (second Run on the same instance)", k.name, spec, env, argv), Case{"kind": ki, "spec": spec, "env": env, "argv": argv},
+				fmt.Sprintf("the calls of the first run again: option: %v argument: %v, action runs %d", runLog[0], runLog[1], ran1), fmt.Sprintf("option: %v argument: %v, action runs %d err=%v", second[0], second[1], ran, o2.Err))
+		}
+		ran = ran1
+	}
 	c.Count("evaluations", 1)
 	key := fmt.Sprintf("type{%s} spec=%q env=%q argv=%q", k.name, spec, env, argv)
 	cs := func() Case { return Case{"kind": ki, "spec": spec, "env": env, "argv": argv} }
